@@ -361,6 +361,12 @@ pub fn run_job(job: &Value, markers: bool) -> Value {
                     None => Value::Null,
                 };
             }
+            if job.get("proj").and_then(|v| v.as_bool()).unwrap_or(false) {
+                if let Some((a, b)) = inventory::projections(&text) {
+                    out["proj_derives_sha"] = json!(hash_hex(a.as_bytes()));
+                    out["proj_types_sha"] = json!(hash_hex(b.as_bytes()));
+                }
+            }
             if job.get("inv").and_then(|v| v.as_bool()).unwrap_or(false) {
                 out["inv"] = inventory::inventory(&text);
             }
